@@ -1281,6 +1281,17 @@ def _load_shapely_geometry(rec, context):
     return shapely.from_wkt(rec['shapely_geometry'])
 
 
+@saver(shapely.Geometry, version=2)
+def _save_shapely_geometry_2(shape, context):
+    # WKT (version 1) rounds coordinates to six decimal places, WKB is exact
+    return {'shapely_geometry_wkb': shapely.to_wkb(shape, hex=True)}
+
+
+@loader(shapely.Geometry, version=2)
+def _load_shapely_geometry_2(rec, context):
+    return shapely.from_wkb(rec['shapely_geometry_wkb'])
+
+
 def apply_inplace_patches(rec):
     """
     Apply in-place patches to a loaded session file. Ideally this should be
